@@ -4754,10 +4754,12 @@ class ParseCtx:
             return val
         elif expr.data == "identifier_const":
             try:
-                expr = self._lookup_named_entity(MacroArgumentKind.EXPR, expr.children[0])
-                return self._parse_integer_expr(expr, into_storage=into_storage)
+                bound_expr = self._lookup_named_entity(MacroArgumentKind.EXPR, expr.children[0])
             except UndefinedReferenceError:
-                pass
+                bound_expr = None
+            if bound_expr is not None:
+                # (errors inside the bound expression are its own, not a sign that the name is an enumeration constant)
+                return self._parse_integer_expr(bound_expr, into_storage=into_storage)
 
             if into_storage is None:
                 raise IllegalParseTree("Undefined enumeration value, no into_storage", expr)
